@@ -23,6 +23,7 @@ EXPLANATION = (
     "after auto-borrowing cannot be refused; loans listed as open in the same synchronous step are open). C07.3: the "
     "not-found / not-open / invalid-amount guards dominate every mutation. Feasibility of raise sites is not decided "
     "(the analysis is may-raise)."
+    " Raise sets include NoPrice from Prices.convert (defects D12/D13 were found when that exclusion was dropped). C07.2 also: the loan a lending strategy creates carries exactly the requested amount."
 )
 TRUSTED = ["CPython ast parser", "sa.cfg statement CFG", "mypy callee resolution", "sa.summaries (may_raise / mutates)",
            "the three lemmas listed in the evidence under 'exclusions'"]
